@@ -22,7 +22,11 @@ This check:
 Round 3 (harness/ext_C04.py, audit in harness/props/C04.audit.md): the kernel factors are modelled over an abstract
 character / aperture (coq/model/C04_Gamma_Model.v) and gamma_factor is tied to the proved closed form by float64
 recomputation of every call of real runs; parallax for all 25 aberration coefficients; crop_bf_mask=True; mask
-representations; corrected_bf; per-image DC; the batch schedule against SimpleBatcher; read/write sets of reconstruct."""
+representations; corrected_bf; per-image DC; the batch schedule against SimpleBatcher; read/write sets of reconstruct.
+Round 4: layered hyper-parameters incl. exact zeros in later layers (harness/layers_C04.py, coq/model/C04_Hyper_Model.v);
+source tie (harness/c04_tie.py -> build/C04/Gen_C04.v, coq/gen_proofs/C04_GenProofs.v, C04_GenProperties.v): the layer merge,
+the rotation priority chain, the kernel alias table, the kernel dispatch, `_return_bf_context` and the two passes of
+`reconstruct` are translated from the current source on every run and proved equal to the model."""
 from __future__ import annotations
 
 import json
@@ -326,6 +330,10 @@ def close_cond(kernel, got, ref, rtol, scale, ill, pix=None):
     m = ill if pix is None else ill[pix]
     if m.shape != got.shape:
         return close(got, ref, 2e-2, scale)
+    # corrected_stack is the REAL PART of the inverse transform: in the spectrum of the result the noise of an
+    # ill-conditioned entry q also sits at its mirror entry -q (round 4, thorough tier: |gamma| = 2.7e-5 max|gamma| at
+    # (4, 1) of a 5 x 9 grid showed up as 1.2e-4 at (1, 8))
+    m = m | np.roll(m[..., ::-1, ::-1], 1, axis=(-2, -1))
     D = np.fft.fft2(got - ref)
     D[m] = 0
     fs = max(float(np.abs(np.fft.fft2(ref)).max()), scale)
@@ -1100,12 +1108,35 @@ def run_oracles(ctx: Ctx):
     ctx.log("oracles: worst relative differences %s" % {k: float("%.2g" % v) for k, v in worst.items()})
 
 
+def _forgive_new_names(ctx, rel):
+    """names this check started to hash after the drift-guard baseline was taken are absent from the baseline, not
+    changed: they must not escalate the budget (they take part in the guard once the baseline is regenerated)"""
+    from .. import common
+    base = common._baseline_hashes().get(ctx.prop, {}).get(rel)
+    drift = ctx.cov.get("drift", {}).get(rel)
+    if base is None or not drift:
+        return
+    real = [k for k in drift if k in base]
+    if real:
+        ctx.cov["drift"][rel] = real
+    else:
+        del ctx.cov["drift"][rel]
+        if not ctx.cov["drift"]:
+            del ctx.cov["drift"]
+            ctx.escalated = False
+            ctx.log("drift guard: the names reported above are new in the hashed set (not in the baseline): no escalation")
+
+
 def run(ctx: Ctx):
     ctx.hash_sources("diffractive_imaging/direct_ptychography.py",
                      ["DirectPtychography._preprocess", "DirectPtychography._return_bf_context",
                       "DirectPtychography._return_kernel_contributions", "DirectPtychography.reconstruct",
                       "DirectPtychography._normalize_kernel_name", "DirectPtychography._return_upsampled_qgrid",
-                      "DirectPtychography._return_lateral_shifts"])
+                      "DirectPtychography._return_lateral_shifts",
+                      "HyperparameterState.current_aberrations", "HyperparameterState.current_rotation_angle",
+                      "HyperparameterState.__post_init__", "DirectPtychography.grid_search_hyperparameters",
+                      "DirectPtychography.optimize_hyperparameters"])
+    _forgive_new_names(ctx, "diffractive_imaging/direct_ptychography.py")
     ctx.hash_sources("diffractive_imaging/complex_probe.py",
                      ["gamma_factor", "evaluate_probe", "aberration_surface_cartesian_gradients",
                       "aberration_surface_polar_gradients", "spatial_frequencies", "soft_aperture"])
@@ -1124,7 +1155,14 @@ def run(ctx: Ctx):
         "crop_bf_mask=True (BF disc inside a 7..11 x 7..11 detector or up to the edge, padding 0..2), bf_mask in 7 "
         "representations, max_batch_size > num_bf, corrected_bf; attribute read/write sets over 3-call sequences; "
         "gamma_factor calls of ssb/obf/mf runs (incl. higher-order aberrations); SimpleBatcher for all n <= 12, b <= n+2 "
-        "and random n <= 60; iCoM from the raw stack through the model.  A case is distinct by its full parameter set, "
+        "and random n <= 60; iCoM from the raw stack through the model.  Round 4 (harness/layers_C04.py): LAYERED hyper-parameters -- "
+        "construction values, an optimised layer brought in through grid_search_hyperparameters (fixed values / single-point "
+        "ranges), optimize_hyperparameters (n_trials=1, degenerate ranges) or a HyperparameterState, per-call overrides of "
+        "aberrations and rotation; later layers set a subset of the keys (canonical names or aliases) to new values of which "
+        "about half are EXACT zeros (0.0, -0.0, int 0; angles; rotation 0), in ~30% every coefficient is switched off: the "
+        "result must equal a fresh object constructed with the effective values, and the analytic parallax clause is evaluated "
+        "with the effective aberrations.  Source tie (harness/c04_tie.py): cross-test of the translated merge / rotation chain / "
+        "name table / dispatch / BF context / passes against the real functions.  A case is distinct by its full parameter set, "
         "non-trivial when it has more than 2 BF pixels / a proper sub-mask")
     ctx.assumptions += [
         "torch.fft.fft2/ifft2 compute the DFT (the model's naive DFT with numpy twiddle tables is compared with them to 1e-4)",
@@ -1139,18 +1177,31 @@ def run(ctx: Ctx):
         "models the batcher)",
         "the attribute probe sees instance attributes only (module- or class-level caches are covered by the history oracle)",
         "torch CPU kernels are deterministic functions of their inputs",
+        "the effective hyper-parameters of a call are: override value if the override sets the key, else the optimised value, "
+        "else the construction value (key by key; aliases canonicalised, defocus = -C10); a coefficient that is absent is zero",
+        "search entry points are used with single-point grids / degenerate ranges only, so the optimised value is known a "
+        "priori; searches whose only trial vanishes identically or is not finite have no best trial and are skipped",
     ]
     ctx.cov["trusted_base"] += [
         "Coq 8.16.1 kernel incl. vm_compute (used to run the model); no native_compute",
         "hand-written models coq/model/C04_Model.v, coq/model/C04_Gamma_Model.v tied to /repo by the correspondence runs of this check",
         "lib/DFT.v, lib/DFT2.v (proved), lib/DFT_Float.v (binary64 instance used only to RUN the model)",
+        "hand-written model coq/model/C04_Hyper_Model.v (layer merge, rotation priority, kernel names, dispatch), tied to the "
+        "CURRENT source by theorem on every run (coq/gen_proofs/C04_GenProofs.v against build/C04/Gen_C04.v)",
+        "harness/layers_C04.py (layer generator, own merge `effective`)",
         "harness/props/C04.py, harness/ext_C04.py (generators, numpy reference formulas, attribute probe, Python->Coq printers), harness/common.py",
         "PrimFloat primitives (binary64) for the executable instance",
     ]
     ctx.proofs_or_violation()
     _torch()
+    try:
+        from ..c04_tie import run_tie
+        run_tie(ctx)
+    except Exception as e:  # noqa
+        ctx.broken_obligation = "; ".join(filter(None, [ctx.broken_obligation, "source tie could not run: %r" % (e,)]))
     run_oracles(ctx)
-    from .. import ext_C04
+    from .. import ext_C04, layers_C04
+    layers_C04.run_layers(ctx)
     ext_C04.run_ext(ctx)
     check_index_map(ctx)
     check_skeleton(ctx)
@@ -1187,6 +1238,9 @@ def replay(ctx: Ctx, path):
             found, err = oracle_integer_shift(ctx, geo, cfg, rp["m"])
         elif which == "history":
             found, err = oracle_history(ctx, geo, cfg, rp["calls"])
+        elif which == "layers":
+            from .. import layers_C04
+            return layers_C04.replay_layers(ctx, rp)
         else:
             from .. import ext_C04
             rc = ext_C04.replay_ext(ctx, rp)
